@@ -41,9 +41,9 @@ KNOWN = {
                "`GRANT .. ON secret` pass table_access (names not reported by visit_relations)",
     "nonascii": "C19-nonascii-fold: listed table \"secrÉt\" spelled unquoted secrÉt passes table_access (Rust to_lowercase folds É, PostgreSQL/UTF8 does not)",
     "trunc": "C19-identifier-truncation: a listed 63-byte table name spelled with extra trailing characters passes table_access (PostgreSQL truncates identifiers to 63 bytes)",
-    "ps_cache": "C19-ps-cache-replay (model, needs wire confirmation): with prepared-statement caching, Parse(s1, denied) Sync registers s1 in the client map before the "
+    "ps_cache": "C19-ps-cache-replay (theorem c19_ps_cache_refuted; observed on the wire): with prepared-statement caching, Parse(s1, denied) Sync registers s1 in the client map before the "
                 "verdict is enforced; Bind(s1) Execute Sync makes pgcat send the cached Parse and run it",
-    "stale": "C19-stale-intercept (model, needs wire confirmation): a failed checkout at Sync clears the batch but keeps an Intercept verdict; the next unrelated batch is answered with the old rows",
+    "stale": "C19-stale-intercept (theorem c19_stale_intercept_refuted; observed on the wire): a failed checkout at Sync clears the batch but keeps an Intercept verdict; the next unrelated batch is answered with the old rows",
     "maxlen": "C19-parser-max-length: with query_parser_max_length set, a message longer than the limit is never parsed, so no plugin runs and it is forwarded: "
               "'SELECT * FROM secret' padded with blanks beyond the limit passes table_access",
     "schema_panic": "C19-intercept-schema-panic: an intercept rule whose schema has an entry with fewer than two strings panics the client task when its query matches (row[1])",
@@ -149,6 +149,13 @@ UNLISTED_POOL = [b"other", b"secrets", b"secre", b"users", b"mixed", b"upper", b
 NONASCII_POOL = ["secrÉt".encode(), "données".encode(), "Über".encode(), "straße".encode()]
 
 
+def note(st, cls, detail, prio=0):
+    """remember the best illustration of a reported defect class; one KNOWN-FINDING line per class is printed at the end"""
+    cur = st["kf"].get(cls)
+    if cur is None or prio > cur[0]:
+        st["kf"][cls] = (prio, detail)
+
+
 def coq_ident(i):
     return "(mkIdent %s %s)" % (vlib.coq_bytes(i[0]), "true" if i[1] else "false")
 
@@ -163,6 +170,21 @@ def coq_names(l):
 
 def coq_blist(l):
     return "[" + "; ".join(vlib.coq_bytes(b) for b in l) + "]"
+
+
+def cnorm(x):
+    """vlib.parse_coq leaves bare identifiers inside constructor arguments as ('#', name): fold them"""
+    if isinstance(x, tuple) and len(x) == 2 and x[0] == "#":
+        return {"true": True, "false": False}.get(x[1], x[1])
+    if isinstance(x, tuple):
+        return tuple(cnorm(y) for y in x)
+    if isinstance(x, list):
+        return [cnorm(y) for y in x]
+    return x
+
+
+def pcoq(v):
+    return cnorm(vlib.parse_coq(v))
 
 
 def obytes(v):
@@ -261,7 +283,7 @@ def check_tables(run, bins, cases, tag, st):
         exprs.append("(ta_verdict %s %s %s %s, map (matches %s) %s)" % (en, coq_blist(c["listed"]), coq_names(c["explicit"]), coq_names(c["visited"]),
                                                                         coq_blist(c["listed"]), coq_names(c["labels"])))
         idx.append(k)
-    vals = vlib.coq_eval("c19_" + tag, PRE, exprs, shard=60)
+    vals = vlib.coq_eval("c19_" + tag, PRE, exprs, shard=100)
     evals = 0
     for k, v in zip(idx, vals):
         c = cases[k]
@@ -311,7 +333,7 @@ def check_tables(run, bins, cases, tag, st):
             if cls:
                 st["known"][cls] = st["known"].get(cls, 0) + 1
                 st["known_samples"].setdefault(cls, c["sql"])
-                run.known_finding(KNOWN[cls] + " [e.g. %r]" % st["known_samples"][cls], key=cls)
+                note(st, cls, " [e.g. %r]" % st["known_samples"][cls])
             else:
                 run.violation("counterexample", "table_access allows %r although %s resolves to the listed table" % (c["sql"], resp[0]),
                               {"input": inp, "impl": c["real"], "expected": "deny", "relation": str(resp[0]), "listed": [b.decode("utf8", "replace") for b in c["listed"]]})
@@ -349,7 +371,7 @@ def check_maxlen(run, bins, st):
             continue
         if o.get("parse") == "err" and len(text) + 5 > limit:
             st["known"]["maxlen"] = st["known"].get("maxlen", 0) + 1
-            run.known_finding(KNOWN["maxlen"] + " [e.g. limit %d, %d-byte message]" % (limit, len(text) + 5), key="maxlen")
+            note(st, "maxlen", " [e.g. limit %d, %d-byte message]" % (limit, len(text) + 5))
             continue
         run.violation("counterexample", "table_access does not deny %r (query_parser_max_length=%d): %s" % (text, limit, o),
                       {"input": {"sql": text, "proto": proto, "parser_max_length": limit, "plugins": pl}, "impl": o.get("plugin"), "expected": "deny"})
@@ -535,7 +557,7 @@ def check_intercept(run, bins, cases, st):
         c["expr"] = "execute_plugins %s %s %s [%s]" % (coq_pcfg(c["plugins"]), vlib.coq_bytes(c["user"].encode()), vlib.coq_bytes(c["db"].encode()), stm)
         exprs.append("let m := %s in (pv_eqb m %s, pv_kind m)" % (c["expr"], rv))
         idx.append(k)
-    vals = vlib.coq_eval("c19_icpt", PRE, exprs, shard=40)
+    vals = vlib.coq_eval("c19_icpt", PRE, exprs, shard=60)
     evals = 0
     for k, v in zip(idx, vals):
         c = cases[k]
@@ -562,7 +584,7 @@ def check_intercept(run, bins, cases, st):
         if exp == "panic":
             if real[0] == "panic":
                 st["known"]["schema_panic"] = st["known"].get("schema_panic", 0) + 1
-                run.known_finding(KNOWN["schema_panic"] + " [e.g. schema %s]" % json.dumps([r["schema"] for r in c["plugins"]["intercept"]["queries"].values()][:1]), key="schema_panic")
+                note(st, "schema_panic", " [e.g. schema %s]" % json.dumps([r["schema"] for r in c["plugins"]["intercept"]["queries"].values()][:1]))
             continue
         if exp is None:
             if real[0] == "intercept":
@@ -594,17 +616,17 @@ def gen_sequence(rng, maxlen=9):
     for _ in range(rng.randint(1, maxlen)):
         nid += 1
         r = rng.random()
-        if r < 0.22:
+        if r < 0.20:
             ops.append(("MQ", nid, rng.random() < 0.9, verdict(nid), rng.random() < 0.93, rng.random() < 0.4))
-        elif r < 0.47:
+        elif r < 0.45:
             name = rng.choice([0, 0, 1, 2]); names_defined.add(name)
             ops.append(("MP", nid, name, rng.choice([7, 8, 9, 10 + nid]), rng.random() < 0.9, verdict(nid)))
-        elif r < 0.62:
+        elif r < 0.58:
             cand = sorted(names_defined) or [0]
             ops.append(("MB", nid, rng.choice(cand) if rng.random() < 0.9 else 3))
-        elif r < 0.67:
+        elif r < 0.65:
             ops.append(("MD", nid, rng.random() < 0.6, rng.choice(sorted(names_defined) or [0])))
-        elif r < 0.77:
+        elif r < 0.73:
             ops.append(("ME", nid))
         elif r < 0.80:
             ops.append(("MC", nid, rng.random() < 0.7, rng.choice([0, 1, 2])))
@@ -725,6 +747,14 @@ FIXED = [
     (PSC, [("MP", 1, 0, 7, T, ("Deny", 1)), ("MS", 2, T, F), ("MB", 3, 0), ("ME", 4), ("MS", 5, T, F)]),
     (PSC, [("MP", 1, 1, 7, T, ("Deny", 1)), ("MS", 2, T, F), ("MD", 3, T, 1), ("MS", 4, T, F)]),
     (STD, [("MP", 1, 0, 7, T, ("Intercept", 1)), ("MS", 2, F, F), ("MP", 3, 0, 8, T, A), ("MB", 4, 0), ("ME", 5), ("MS", 6, T, F)]),
+    # prepared-statement caching: cache hit (ParseComplete synthesised), named Close (CloseComplete synthesised, name forgotten),
+    # Bind after Close inside one batch (task ends), Describe of a cached statement on a fresh server
+    (PSC, [("MP", 1, 1, 7, T, A), ("MS", 2, T, F), ("MP", 3, 2, 7, T, A), ("MB", 4, 2), ("ME", 5), ("MS", 6, T, F)]),
+    (PSC, [("MP", 1, 1, 7, T, A), ("MS", 2, T, F), ("MC", 3, T, 1), ("MS", 4, T, F), ("MB", 5, 1)]),
+    (PSC, [("MP", 1, 1, 7, T, A), ("MB", 2, 1), ("MC", 3, T, 1), ("MB", 4, 1), ("ME", 5), ("MS", 6, T, F)]),
+    (PSC, [("MP", 1, 1, 7, T, A), ("MC", 2, T, 1), ("MC", 3, F, 1), ("MC", 4, T, 0), ("MS", 5, T, F)]),
+    (PSC, [("MP", 1, 1, 7, T, A), ("MD", 2, T, 1), ("MD", 3, F, 0), ("MS", 4, T, F)]),
+    (dict(STD, txn_mode=F), [("MQ", 1, T, A, T, F), ("MP", 2, 1, 7, T, ("Deny", 2)), ("MS", 3, T, F), ("MQ", 4, T, ("Intercept", 4), T, F), ("MH", 5, T), ("MQ", 6, T, A, T, F)]),
 ]
 
 
@@ -736,7 +766,7 @@ def sequences_with_expected(rng, n, tag="seq"):
     vals = vlib.coq_eval("c19_" + tag, PRE, exprs, shard=40)
     out = []
     for (c, ops), v in zip(seqs, vals):
-        evs = vlib.parse_coq(v)
+        evs = pcoq(v)
         out.append({"cfg": c, "ops": [list(m[:3]) + [list(x) if isinstance(x, tuple) else x for x in m[3:]] for m in ops], "_ops": ops,
                     "wire": wire_script(c, ops), "expected_events": [ev_json(e) for e in evs]})
     return out
@@ -769,13 +799,287 @@ def check_sequences(run, n, st):
                 if bad_op(cfg, byid[it["id"]]):
                     if it["k"] == "pgcat_parse" and cfg["ps_on"]:
                         st["known"]["ps_cache"] = st["known"].get("ps_cache", 0) + 1
-                        run.known_finding(KNOWN["ps_cache"] + " [model sequence %s]" % json.dumps(s["wire"]["messages"]), key="ps_cache")
+                        note(st, "ps_cache", " [model sequence %s]" % json.dumps(s["wire"]["messages"]))
                     else:
                         run.violation("proof-broken", "the Coq model forwards a rejected message outside the known class: %s" % json.dumps(s["ops"]),
                                       {"theorem": "c19_enforced", "input": {"cfg": cfg, "ops": s["ops"]}, "model": s["expected_events"]}, found_input=False)
                         return len(seqs)
     st["seq_sample"] = {k: seqs[0][k] for k in ("cfg", "ops", "wire", "expected_events")} if seqs else None
     return len(seqs)
+
+
+# ----------------------------------------------------------------------------- wire: the machine vs the real client.rs
+WPRE = PRE + """
+Definition cur_tx (s : state) : bool := if held s then stx s else false.
+(* texts that cannot steer the mock backend's transaction state get the current state as tx_after *)
+Definition norm_msg (s : state) (m : msg) : msg :=
+  match m with
+  | MS i p _ => MS i p (cur_tx s)
+  | MQ i parsed v p tx => if parsed && is_allow v then m else MQ i parsed v p (cur_tx s)
+  | _ => m
+  end.
+Fixpoint wrun (c : cfg) (s : state) (ops : list msg) : list (msg * bool * bool * list event) :=
+  match ops with
+  | [] => []
+  | m :: r => let m' := norm_msg s m in let '(s', ev) := step c s m' in (m', held s, cur_tx s, ev) :: wrun c s' r
+  end."""
+
+
+def gen_wire_sequence(rng, maxlen=9):
+    """like gen_sequence, but realisable on the wire: a repeated statement text (same key) carries the verdict of its
+    first occurrence; checkouts fail rarely (each costs a connect_timeout)."""
+    cfg, ops = gen_sequence(rng, maxlen)
+    out, parses = [], []
+    for m in ops:
+        if m[0] == "MP":
+            if parses and rng.random() < 0.3:
+                o = rng.choice(parses)
+                m = ("MP", m[1], m[2], o[3], o[4], o[5])
+            else:
+                m = ("MP", m[1], m[2], m[1], m[4], m[5])
+                parses.append(m)
+        elif m[0] == "MQ":
+            m = ("MQ", m[1], m[2], m[3], m[4] or rng.random() < 0.5, m[5])
+        elif m[0] == "MS":
+            m = ("MS", m[1], m[2] or rng.random() < 0.5, m[3])
+        elif m[0] == "MH":
+            m = ("MH", m[1], True)
+        out.append(m)
+    return cfg, out
+
+
+def wire_text(kind_id, parsed, v, want_tx=None, cur_tx=False):
+    if not parsed:
+        return "SELECT %d FROM ONLY public.%s%d" % (kind_id, "secret" if v[0] == "Deny" else "t", kind_id)     # sqlparser rejects it
+    if v[0] == "Deny":
+        return "SELECT %d FROM secret%d" % (v[1], v[1])
+    if v[0] == "Intercept":
+        return "select %d as intercepted" % v[1]
+    if want_tx is None or want_tx == cur_tx:
+        return "SELECT %d" % kind_id
+    return ("BEGIN /*c19:%d*/" if want_tx else "COMMIT /*c19:%d*/") % kind_id
+
+
+def msg_tuple(pm):
+    """parsed Coq msg -> python tuple like the generator's"""
+    def vd(x):
+        return ("Allow",) if x == "Allow" else (x[0], x[1])
+    k = pm[0]
+    if k == "MQ":
+        return ("MQ", pm[1], pm[2], vd(pm[3]), pm[4], pm[5])
+    if k == "MP":
+        return ("MP", pm[1], pm[2], pm[3], pm[4], vd(pm[5]))
+    return tuple(pm)
+
+
+def build_wire_scenario(cfg, rows):
+    """rows: [(msg, held_before, cur_tx_before, events)] from the Coq model.  Returns (scenario, expectations)."""
+    from props import wirelib as W
+    ids = sorted({m[1] for m, _, _, _ in rows})
+    rules, text_of = {}, {}
+    for m, held, cur, evs in rows:
+        if m[0] == "MQ":
+            text_of[("Q", m[1])] = wire_text(m[1], m[2], m[3], m[5], cur)
+            if m[2] and m[3][0] == "Intercept":
+                rules[m[3][1]] = 1
+        elif m[0] == "MP":
+            text_of[("P", m[1])] = wire_text(m[3], m[4], m[5])          # keyed by statement identity
+            if m[4] and m[5][0] == "Intercept":
+                rules[m[5][1]] = 1
+    plug = None
+    if cfg["plugins_on"]:
+        plug = "[plugins]\n[plugins.table_access]\nenabled = true\ntables = [%s]\n" % ", ".join('"secret%d"' % i for i in ids)
+        if rules:
+            plug += "[plugins.intercept]\nenabled = true\n"
+        for t in sorted(rules):
+            plug += '[plugins.intercept.queries.%d]\nquery = "select %d as intercepted"\nschema = [["id", "int4"]]\nresult = [["%d"]]\n' % (t, t, t)
+    # pool-level plugins are refused by the config check when the pool's parser is off; the global [plugins] section is
+    # inherited by such a pool without complaint (and is inert there)
+    pool_level = cfg["parser_on"]
+    toml = W.make_toml(general={"connect_timeout": 300}, plugins=None if pool_level else plug,
+                       pools={"db": {"opts": {"query_parser_enabled": cfg["parser_on"], "prepared_statements_cache_size": 500 if cfg["ps_on"] else 0,
+                                              "pool_mode": "transaction" if cfg["txn_mode"] else "session"},
+                                     "plugins": plug if pool_level else None, "users": [{"username": "u", "password": "pw", "pool_size": 1}],
+                                     "shards": [{"database": "db0", "servers": [["b0", "primary"]]}]}})
+    steps = [{"op": "connect", "c": "a", "params": {"user": "u", "database": "db"}, "password": "pw", "timeout_ms": 1500},
+             {"op": "connect", "c": "h", "params": {"user": "u", "database": "db"}, "password": "pw", "timeout_ms": 1500}]
+    exp_backend, exp_client, ours, reply_ops = [], [], set(text_of.values()), []
+    nm = lambda n: "" if n == 0 else "s%d" % n
+    ended = False
+    for m, held, cur, evs in rows:
+        k = m[0]
+        if k == "MQ":
+            wm = {"t": "Q", "sql": text_of[("Q", m[1])]}
+        elif k == "MP":
+            wm = {"t": "P", "name": nm(m[2]), "sql": text_of[("P", m[1])], "types": []}
+        elif k == "MB":
+            wm = {"t": "B", "portal": "", "name": nm(m[2]), "fmts": [], "params": [], "rfmts": []}
+        elif k in ("MD", "MC"):
+            wm = {"t": k[1], "kind": "S" if m[2] else "P", "name": nm(m[3])}
+        elif k == "ME":
+            wm = {"t": "E", "portal": "", "max": 0}
+        elif k == "MS":
+            wm = {"t": "S"}
+        else:
+            wm = {"t": "H"}
+        block = (k in ("MQ", "MS", "MH")) and not held and not pool_ok(m)
+        if block:       # exhaust the pool: the only server is inside h's transaction
+            steps += [{"op": "send", "c": "h", "msgs": [{"t": "Q", "sql": "BEGIN /*c19:holder*/"}]}, {"op": "recv", "c": "h", "until": "Z", "timeout_ms": 1500, "label": "hold"}]
+        steps.append({"op": "send", "c": "a", "msgs": [wm]})
+        group = None
+        for e in evs:
+            j = ev_json(e)
+            if j["ev"] == "error":
+                group = ("plugin_error", j["t"]) if j["kind"] == "plugin" else (j["kind"] + "_error",)
+            elif j["ev"] == "intercept":
+                group = ("intercept", j["t"])
+            elif j["ev"] == "end":
+                ended = True
+            elif j["ev"] == "forward":
+                for it in e[1]:
+                    fm = it[1]
+                    code = fm[0][1]
+                    if it[0] == "FParse":
+                        exp_backend += [("P", text_of[("P", fm[1])]), ("S",)]
+                    elif code in ("Q", "P"):
+                        exp_backend.append((code, text_of[(code, fm[1])]))
+                    else:
+                        exp_backend.append((code,))
+                    if it[0] == "FMsg" and code in ("Q", "S"):
+                        group = group or ("other",)
+        if k == "MS" and group is None and not ended:
+            group = ("other",)          # nothing left to send: ParseComplete/CloseComplete/ReadyForQuery synthesised
+        has_reply = bool(group and not (ended and group == ("other",)))
+        reply_ops.append(has_reply)
+        if has_reply:
+            exp_client.append(group)
+            steps.append({"op": "recv", "c": "a", "until": "Z", "timeout_ms": 2500})
+        if block:
+            steps += [{"op": "send", "c": "h", "msgs": [{"t": "Q", "sql": "COMMIT /*c19:holder*/"}]}, {"op": "recv", "c": "h", "until": "Z", "timeout_ms": 1500, "label": "unhold"}]
+        if ended:
+            break
+    if not ended:
+        steps.append({"op": "recv", "c": "a", "until": "Z", "timeout_ms": 150, "label": "drain"})
+    return {"backends": [{"name": "b0"}], "toml": toml, "steps": steps}, {"backend": exp_backend, "client": exp_client, "texts": ours, "ended": ended, "reply_ops": reply_ops}
+
+
+def pool_ok(m):
+    return m[4] if m[0] == "MQ" else (m[2] if m[0] in ("MS", "MH") else True)
+
+
+def observe_wire(res, texts):
+    """(backend messages of the client's texts in order, client reply groups in order, holder ok)"""
+    back, frames, hold_ok = [], [], True
+    for e in res.get("events", []):
+        if e.get("ev") == "msg" and e.get("who") == "b0":
+            t, d = e["tag"], e.get("detail", {})
+            if t in ("Q", "P"):
+                if d.get("sql") in texts:
+                    back.append((t, d["sql"]))
+            elif t in ("B", "E", "D", "C", "S", "H"):
+                back.append((t,))
+        elif e.get("ev") == "recv" and e.get("who") == "a":
+            frames.extend(e["frames"])
+        elif e.get("ev") == "recv" and e.get("who") == "h" and e.get("outcome") != "ok":
+            hold_ok = False
+    groups, cur = [], []
+    for f in frames:
+        cur.append(f)
+        if f.get("t") == "Z":
+            groups.append(cur); cur = []
+    out = []
+    for g in groups:
+        cls = ("other",)
+        for f in g:
+            if f.get("t") == "E" and f.get("fields", {}).get("C") == "58000":
+                msg = f["fields"].get("M", "")
+                m = re.match(r'^permission for table "secret(\d+)" denied$', msg)
+                if m:
+                    cls = ("plugin_error", int(m.group(1)))
+                elif msg.startswith("could not get connection from the pool"):
+                    cls = ("pool_error",)
+                elif re.match(r'^prepared statement ".*" does not exist$', msg):
+                    cls = ("unknown_stmt_error",)
+        ts = [f.get("t") for f in g]
+        if ts == ["T", "D", "C", "Z"] and g[0].get("names") == ["id"] and g[2].get("tag") == "SELECT":
+            cls = ("intercept", int(g[1]["cols"][0]))
+        out.append(cls)
+    return back, out, hold_ok, cur
+
+
+def check_wire(run, n, st):
+    """the Coq machine and the real Client::handle on the same message sequences, over the wire"""
+    ok, blog, bins = vlib.cargo_build(["wire"])
+    if not ok:
+        run.violation("tie-broken", "wire harness does not build", {"correspondence": "wire harness build", "log": blog[-2000:]}, found_input=False)
+        return 0
+    from props import wirelib as W
+    seqs = [(dict(c), list(o)) for c, o in FIXED] + [gen_wire_sequence(run.rng) for _ in range(n)]
+    exprs = ["wrun %s init [%s]" % (coq_cfg(c), "; ".join(coq_msg(m) for m in ops)) for c, ops in seqs]
+    vals = vlib.coq_eval("c19_wire", WPRE, exprs, shard=20)
+    scns, exps, metas = [], [], []
+    for (c, ops), v in zip(seqs, vals):
+        rows = [(msg_tuple(r[0]), r[1], r[2], r[3]) for r in pcoq(v)]
+        sc, ex = build_wire_scenario(c, rows)
+        scns.append(sc); exps.append(ex); metas.append((c, [r[0] for r in rows], rows))
+    results = W.run_scenarios(bins["wire"], scns)
+    for (c, ops, rows), sc, ex, res in zip(metas, scns, exps, results):
+        st["wire"] += 1
+        if "harness_error" in res or "start_error" in res:
+            run.broken.append("wire harness: %s" % (res.get("harness_error") or res.get("start_error")))
+            return len(scns)
+        back, groups, hold_ok, rest = observe_wire(res, ex["texts"])
+        run.cov["traces_validated_against_impl"] += 1
+        st["distinct"].add(("wire", json.dumps(c, sort_keys=True), json.dumps(ops)))
+        for g in ex["client"]:
+            st["wire_groups"][g[0]] = st["wire_groups"].get(g[0], 0) + 1
+        st["wire_forwarded"] += len(ex["backend"])
+        if back == ex["backend"] and groups == ex["client"] and hold_ok and not rest:
+            continue
+        # a disagreement: is it the reported prepared-statement replay / stale intercept (the model predicts them too, so they
+        # cannot show up here), or a rejected text at the server that the model does not predict?
+        bad_texts = {t for t in ex["texts"] if re.search(r"FROM secret\d+$| as intercepted$", t)} if c["plugins_on"] and c["parser_on"] else set()
+        leaked = [b for b in back if len(b) == 2 and b[1] in bad_texts and b not in ex["backend"]]
+        inp = {"cfg": c, "ops": [list(o) for o in ops], "steps": sc["steps"], "toml": sc["toml"]}
+        if leaked:
+            run.violation("counterexample", "a statement the plugins rejected reached the server: %s" % (leaked[0],),
+                          {"input": inp, "impl": {"backend": back, "client": groups}, "model": {"backend": ex["backend"], "client": ex["client"]}})
+        else:
+            run.violation("tie-broken", "Client::handle and the Coq machine disagree on %s: server saw %s (model %s), client got %s (model %s)%s" %
+                          (json.dumps([list(o) for o in ops]), back, ex["backend"], groups, ex["client"], "" if hold_ok else " [pool holder could not get the server]"),
+                          {"correspondence": "Plugin/Model.v step vs Client::handle (wire)", "input": inp, "impl": {"backend": back, "client": groups, "rest": rest},
+                           "model": {"backend": ex["backend"], "client": ex["client"]}}, found_input=False)
+        return len(scns)
+    # model and implementation agree on every scenario.  Now the property itself on what was OBSERVED: a rejected text at
+    # the server / rows for a batch that earned none are defects, accepted only as the two reported classes.
+    for (c, ops, rows), ex, res in zip(metas, exps, results):
+        if not (c["plugins_on"] and c["parser_on"]):
+            continue
+        back, groups, _, _ = observe_wire(res, ex["texts"])
+        for b in back:
+            if len(b) == 2 and re.search(r"FROM secret\d+$| as intercepted$", b[1]):
+                if c["ps_on"] and b[0] == "P":
+                    st["known"]["ps_cache_wire"] = st["known"].get("ps_cache_wire", 0) + 1
+                    note(st, "ps_cache", " [wire: the server received Parse %r after the client had been told permission denied]" % b[1], prio=1)
+                else:
+                    run.violation("counterexample", "a statement the plugins rejected reached the server: %s" % (b,),
+                                  {"input": {"cfg": c, "ops": [list(o) for o in ops]}, "impl": {"backend": back}})
+                    return len(scns)
+        # rows answered to a batch without an intercepted Parse/Query since the previous reply
+        gi, since = 0, []
+        for (m, held, cur, evs), has_reply in zip(rows, ex["reply_ops"]):
+            since.append(m)
+            if not has_reply:
+                continue
+            g = groups[gi] if gi < len(groups) else None
+            gi += 1
+            if g and g[0] == "intercept":
+                earned = any((x[0] == "MQ" and x[2] and x[3] == ("Intercept", g[1])) or (x[0] == "MP" and x[4] and x[5] == ("Intercept", g[1])) for x in since)
+                if not earned:
+                    st["known"]["stale_wire"] = st["known"].get("stale_wire", 0) + 1
+                    note(st, "stale", " [wire: %s answered with the rows of rule %d]" % (json.dumps([list(x) for x in since]), g[1]), prio=1)
+            since = []
+    return len(scns)
 
 
 # ----------------------------------------------------------------------------- driver
@@ -796,6 +1100,7 @@ def check(run):
     proof_ok, log = vlib.prove(run, COQ_FILES, "Plugin/Props.v")
     run.log("proof ok=%s" % proof_ok)
     ok, blog, bins = vlib.cargo_build(["router", "plugins"])
+    run.log("harness built")
     if not ok:
         run.violation("tie-broken", "harness does not build against /repo (API used by the correspondence changed)",
                       {"correspondence": "router/plugins harness build", "log": blog[-3000:]}, found_input=False)
@@ -808,30 +1113,35 @@ def check(run):
             else:
                 run.violation("proof-broken", "Plugin/Props.v no longer checks; no failing statement found in the search", {"theorem": "Plugin/Props.v", "coq_log": log[-2500:]}, found_input=False)
         return
-    st = {"rejected": 0, "rejected_by_group": {}, "by_group": {}, "by_pos": {}, "distinct": set(), "spellings": set(), "known": {}, "known_samples": {}, "denied": 0,
-          "overblock_nonascii": 0, "gaps_closed": set(), "icpt_kinds": {}, "icpt_matched": 0, "seq": 0, "seq_events": {}}
+    st = {"kf": {}, "rejected": 0, "rejected_by_group": {}, "by_group": {}, "by_pos": {}, "distinct": set(), "spellings": set(), "known": {}, "known_samples": {}, "denied": 0,
+          "overblock_nonascii": 0, "gaps_closed": set(), "icpt_kinds": {}, "icpt_matched": 0, "seq": 0, "seq_events": {}, "wire": 0, "wire_groups": {}, "wire_forwarded": 0}
     evals = 0
-    nt = 1400 if quick else 40000
+    nt = 1000 if quick else 40000
     cases = gen_table_cases(rng, nt)
     evals += check_tables(run, bins, cases, "ta", st)
     run.log("table_access: %d cases, %d rejected by the parser, %d expected-deny" % (len(cases), st["rejected"], st["denied"]))
     if not run.violations:
-        na = gen_table_cases(rng, 250 if quick else 5000, nonascii=True)
+        na = gen_table_cases(rng, 200 if quick else 5000, nonascii=True)
         evals += check_tables(run, bins, na, "na", st)
     if not run.violations:
         evals += check_maxlen(run, bins, st)
     if not run.violations:
-        ic = gen_intercept_cases(rng, 500 if quick else 12000)
+        ic = gen_intercept_cases(rng, 350 if quick else 12000)
         evals += check_intercept(run, bins, ic, st)
         run.log("intercept: %d cases, kinds %s" % (len(ic), st["icpt_kinds"]))
     if not run.violations:
-        evals += check_sequences(run, 400 if quick else 20000, st)
+        evals += check_sequences(run, 300 if quick else 20000, st)
+    if not run.violations:
+        evals += check_wire(run, 120 if quick else 4000, st)
+        run.log("wire: %d scenarios, reply groups %s, %d forwarded messages" % (st["wire"], st["wire_groups"], st["wire_forwarded"]))
     missing_groups = [g for g in REQUIRED_GROUPS if st["by_group"].get(g, 0) == 0]
     if missing_groups and not run.violations:
         run.broken.append("statement groups never accepted by the parser: %s" % missing_groups)
     # the model-level findings are reported on every run (their witnesses are theorems of Props.v)
-    run.known_finding(KNOWN["stale"], key="stale")
-    run.known_finding(KNOWN["ps_cache"], key="ps_cache")
+    note(st, "stale", "", prio=-1)
+    note(st, "ps_cache", "", prio=-1)
+    for cls in sorted(st["kf"]):
+        run.known_finding(KNOWN[cls] + st["kf"][cls][1], key=cls)
     run.cov["evaluations"] = evals
     run.cov["distinct_nontrivial"] = len(st["distinct"])
     run.cov["rule"] = ("table_access: %d statement shapes in %d groups (FROM, JOIN, subquery, CTE, DML target/USING, COPY table+query, DROP, TRUNCATE, MERGE, INSERT..SELECT, EXPLAIN, CTAS/VIEW, "
@@ -843,7 +1153,8 @@ def check(run):
     run.cov["input_distribution"] = {"by_group": st["by_group"], "by_position_protocol": st["by_pos"], "parser_rejected": st["rejected"], "parser_rejected_by_group": st["rejected_by_group"],
                                      "distinct_spellings": len(st["spellings"]), "expected_deny": st["denied"], "intercept_verdicts": st["icpt_kinds"], "intercept_replies_read": st["icpt_matched"],
                                      "overblocked_nonascii": st["overblock_nonascii"], "known_finding_hits": st["known"], "gap_shapes_now_reported": sorted(st["gaps_closed"]),
-                                     "model_sequences": st["seq"], "model_sequence_events": st["seq_events"]}
+                                     "model_sequences": st["seq"], "model_sequence_events": st["seq_events"],
+                                     "wire_scenarios": st["wire"], "wire_reply_groups": st["wire_groups"], "wire_forwarded_messages": st["wire_forwarded"]}
     run.cov["samples"] = [{"kind": "table_access", "sql": c["sql"], "proto": c["proto"], "listed": [b.decode("utf8", "replace") for b in c["listed"]], "real": c.get("real")} for c in cases[:4]] + \
                          [{"kind": "sequence", **(st.get("seq_sample") or {})}]
     if not quick and proof_ok:
@@ -868,6 +1179,17 @@ def replay(run, path):
     r = json.load(open(path))
     print(json.dumps(r, indent=1)[:4000])
     inp = r.get("input", {})
+    if "steps" in inp and "toml" in inp:      # a wire scenario: run it again and show both sides
+        from props import wirelib as W
+        ok, blog, bins = vlib.cargo_build(["wire"])
+        res = W.run_scenario(bins["wire"], {"backends": [{"name": "b0"}], "toml": inp["toml"], "steps": inp["steps"]})
+        texts = {m["sql"] for st_ in inp["steps"] if st_.get("op") == "send" for m in st_["msgs"] if "sql" in m}
+        back, groups, hold_ok, rest = observe_wire(res, texts)
+        print("replay: server saw %s\n        client got %s" % (back, groups))
+        print("        model : server %s\n                client %s" % (r.get("model", {}).get("backend"), r.get("model", {}).get("client")))
+        mb = [tuple(x) for x in r.get("model", {}).get("backend", [])]
+        mc = [tuple(x) for x in r.get("model", {}).get("client", [])]
+        return 0 if (back == mb and groups == mc) else 1
     if "sql" not in inp:
         return 0
     ok, blog, bins = vlib.cargo_build(["router", "plugins"])
